@@ -1,6 +1,7 @@
 package cputensor
 
 import "math"
+import "github.com/sahandsafizadeh/qeep/tensor/internal/verifhook"
 
 const float64EqualityThreshold = 1e-240
 
@@ -171,6 +172,7 @@ func applyUnaryFuncOnTensorElemWise(t *CPUTensor, suf scalarUnaryFunc) (o *CPUTe
 	var calcData func([]int, *any, *any)
 	calcData = func(dims []int, a, r *any) {
 		if len(dims) == 0 {
+			verifhook.Point("unaryElem")
 			*r = suf((*a).(float64))
 			return
 		}
@@ -199,6 +201,7 @@ func applyBinaryFuncOnTensorsElemWise(t1, t2 *CPUTensor, sbf scalarBinaryFunc) (
 	var calcData func([]int, *any, *any, *any)
 	calcData = func(dims []int, a, b, r *any) {
 		if len(dims) == 0 {
+			verifhook.Point("binaryElem")
 			*r = sbf((*a).(float64), (*b).(float64))
 			return
 		}
